@@ -315,8 +315,8 @@ class Oracle(reg.Machine):
                 self.bad("C04", f"contradictory dtype {op[6]!r} and length {op[4]} gave {outcome}")
         if "C04" in self.checks:
             for s in [x for x in self.slots if isinstance(x, DomainS)]:
-                if s.length < 0 or not s.name.strip("*"):
-                    continue          # outside the property's quantifier: len() refuses, name[-1] of '' fails
+                if not s.name.strip("*"):
+                    continue          # outside the property's quantifier: name[-1] of '' fails
                 try:
                     c = ~s
                     if c.length != s.length or c.name != (s.name[:-1] if s.name.endswith("*") else s.name + "*"):
